@@ -287,6 +287,9 @@ FRAGS = [
     # 28 tags that render nothing, between literal text
     'pre<dtml-comment>hidden <dtml-var x></dtml-comment>mid<dtml-call hook>'
     'post:<dtml-var x>',
+    # 30 a keyword default whose name starts with an underscore (legal as
+    # a keyword default, never taken from a mapping)
+    '[<dtml-var _u missing="-">]',
     # 29 an exception object kept in the template's defaults (shared by
     # every render) whose argument takes its time to turn into text
     'E:<dtml-var shexc missing="-">;',
@@ -565,7 +568,10 @@ def gen_case(seed, tier):
             'via_mapping': core.stream(seed, 'c17map').random() < 0.3,
             'bad_suffix': core.stream(seed, 'c17bad').choice(BAD_SUFFIXES)
             if core.stream(seed, 'c17badp').random() < 0.03 else None,
-            'defaults': r.choice([{'dflt': 'D'}, {'dflt': 'D', 'c': 1}, {}]),
+            'defaults': dict(r.choice([{'dflt': 'D'}, {'dflt': 'D', 'c': 1},
+                                       {}]), **({'_u': 'U'} if core.stream(
+                                           seed, 'c17und').random() < 0.3
+                                           else {})),
             'with_sub': r.random() < 0.6}
 
 
@@ -722,6 +728,11 @@ def run_case(case):
     fs = FS({FNAME: src_text(case, case['start']),
              FNAME2: src_text(case, (case['start'] + 1) % len(
                  case['sources']))} if is_file else {})
+    if case.get('via_mapping'):
+        # defaults handed over as the constructor's mapping argument: names
+        # that start with an underscore are not taken from a mapping
+        case = dict(case, defaults={k: v for k, v in case['defaults'].items()
+                                    if k[:1] != '_'})
     state = {'src': None if is_file else src_text(case, case['start']),
              'j': case['start'], 'cooked': None, 'cooked_j': None,
              'defaults': dict(case['defaults']), 'vars': {},
